@@ -399,6 +399,28 @@ func runC06(c *fw.Check) {
 				}
 				return "parser-vs-ir-type/" + bad[0].kind, "parser-attached type and IR-computed type differ", strings.Join(d, "\n"), ""
 			}
+			// the same comparison with the operands retyped the way API users type them: predeclared
+			// leaves (types.I8, ...) under types.NewPointer/NewArray/...; the IR constructors then
+			// compute their result types from (and possibly into) SHARED type objects.
+			if m2, e2, p2 := parseTry(gen.Module(vs)); e2 == "" && p2 == "" {
+				var bad2 []c06cmp
+				if p := fw.Try(func() {
+					c03retype(m2)
+					bad2 = c06compare(m2, map[string]int{})
+				}); p != "" {
+					return "parser-vs-ir-type/predeclared-types/panic@" + fw.PanicSiteOf(p), "computing result types over predeclared types panics", p, ""
+				}
+				if len(bad2) > 0 {
+					var d []string
+					for _, b := range bad2 {
+						d = append(d, fmt.Sprintf("%s: parser says %s, IR constructor says %s, for `%s`", b.kind, b.tAsm, b.tIR, fw.Trunc(b.text, 120)))
+					}
+					return "parser-vs-ir-type/predeclared-types/" + bad2[0].kind, "parser-attached type and the type the IR computes over predeclared types (types.I8, types.NewPointer(...)) differ", strings.Join(d, "\n"), ""
+				}
+				if w := c03predeclaredIntact(); w != "" {
+					return "predeclared-type-modified", "computing a result type modified a predeclared type of package types", w, ""
+				}
+			}
 			var y string
 			if p := fw.Try(func() { y = m.String() }); p != "" {
 				return "", "", "", ""
